@@ -4,6 +4,7 @@ from hypothesis import strategies as st
 from mingus.core import intervals
 
 from vlib.core import Sub, failed
+from vlib.hanglatch import latched
 from vlib.ref import theory as T
 
 PROPERTY_ID = "C02"
@@ -96,6 +97,7 @@ def check_pair(ctx, case):
     ctx.note_case(nontrivial, ["measure:%d" % m])
 
 
+check_constructor = latched("constructor", check_constructor)  # a broken correction loop never terminates
 CHECKS = {"constructor": check_constructor, "pair": check_pair}
 
 
